@@ -1077,11 +1077,30 @@ impl Formatter {
     }
 
     fn format_match_arm(&mut self, arm: &MatchArm) {
-        self.format_pattern(&arm.pattern.node);
+        // Guards only exist in the `case PATTERN if GUARD:` spelling; `PATTERN if GUARD =>` does not parse.
         if let Some(guard) = &arm.guard {
+            self.writer.write("case ");
+            self.format_pattern(&arm.pattern.node);
             self.writer.write(" if ");
             self.format_expr(&guard.node);
+            self.writer.write(":");
+            self.writer.newline();
+            self.writer.indent();
+            match &arm.body {
+                MatchBody::Expr(expr) => {
+                    self.format_expr(&expr.node);
+                    self.writer.newline();
+                }
+                MatchBody::Block(stmts) => {
+                    for stmt in stmts {
+                        self.format_statement(&stmt.node);
+                    }
+                }
+            }
+            self.writer.dedent();
+            return;
         }
+        self.format_pattern(&arm.pattern.node);
         self.writer.write(" => ");
         match &arm.body {
             MatchBody::Expr(expr) => {
@@ -1105,7 +1124,12 @@ impl Formatter {
             Pattern::Binding(name) => self.writer.write(name),
             Pattern::Literal(lit) => self.format_literal(lit),
             Pattern::Constructor(name, patterns) => {
-                self.writer.write(name);
+                // Qualified variants are stored as `Enum::Variant` but written `Enum.Variant` in patterns.
+                self.writer.write(&name.replace("::", "."));
+                if patterns.is_empty() && !name.contains("::") {
+                    // `Name()` is a constructor pattern, bare `Name` would read back as a binding.
+                    self.writer.write("()");
+                }
                 if !patterns.is_empty() {
                     self.writer.write("(");
                     for (i, p) in patterns.iter().enumerate() {
